@@ -11,8 +11,8 @@ use std::panic::{catch_unwind, AssertUnwindSafe};
 
 fn budget(t: Tier) -> u64 {
     match t {
-        Tier::Quick => 96,
-        Tier::Thorough => 640,
+        Tier::Quick => 384,
+        Tier::Thorough => 1_280,
     }
 }
 
